@@ -40,7 +40,7 @@ macro_rules! c04_poisson {
 }
 //@ id: c04_poisson_f64
 //@ prop: C04
-//@ tier: quick
+//@ tier: thorough
 //@ cap: 600
 //@ funcs: Poisson::<f64>::new; KnuthMethod::new; RejectionMethod::new
 //@ bounds: every f64 bit pattern (MAX_LAMBDA +- ulp, 12 +- ulp included)
